@@ -1,4 +1,4 @@
-    requires old(w).journal.locked, // [C06:P-VIS-publish-under-lock]
+    requires tracker_wf_publish(self), old(w).journal.locked, // [C06:P-VIS-publish-under-lock]
         old(w).inflight == Some(batch_seqno), // [C06:P-PUBLISH-own-seqno]
         old(w).pending.len() == 0, // [C06:P-PUBLISH-after-full-apply] [C03:publish-after-full-apply]
         batch_seqno < u64::MAX,
